@@ -78,6 +78,7 @@ NEWTON, CG, PGS = E("mjSOL_NEWTON"), E("mjSOL_CG"), E("mjSOL_PGS")
 SOLNAME = {NEWTON: "Newton", CG: "CG", PGS: "PGS"}
 ITER = {NEWTON: 200, CG: 1000, PGS: 5000}
 TOL = 1e-12
+TOL_LOOSE = 1e-6
 
 # thresholds (calibrated on the unmodified tree over 20 quick seeds + thorough runs, see ctx.extra["oracle_stats"]);
 # scaled certified sub-optimality 1/2 g'M^-1 g / (meaninertia * nv) of a solve that left its loop through its own exit test
@@ -88,7 +89,9 @@ BOUND_REL = {             # observed maxima:
     "CG/elliptic": 1e-7,      # 4.4e-10
     "PGS": 1e-4,              # 2.5e-7 (dual solver; exits on its own dual improvement)
     "PGS/elliptic": 1e-4,     # not met by the unmodified tree: PGS_ELLIPTIC_KEY
+    "Newton@loose": 0.05, "Newton/elliptic@loose": 0.05, "CG@loose": 0.05, "CG/elliptic@loose": 0.05,   # tolerance 1e-6: observed 5e-4
 }
+NOISE_REL = 1e-11         # relative resolution granted to the engine's own cost evaluation (~5e4 ulp of the cost)
 PGS_ELLIPTIC_KEY = "c10:pgs-elliptic-converges-off-optimum"
 # deterministic witness of PGS_ELLIPTIC_KEY (a generated 2-dof scene: weld, limit, friction loss, one elliptic contact)
 WITNESS = {
@@ -248,14 +251,18 @@ def gen_script(ctx, nmodels):
                 for noisland in (1, 0):
                     jac = rng.choice((E("mjJAC_DENSE"), E("mjJAC_SPARSE")))
                     cfgs.append((solver, jac, noisland))
-            cfgs = [(s_, j_, n_, ITER[s_]) for s_, j_, n_ in cfgs]
+            cfgs = [(s_, j_, n_, ITER[s_], TOL) for s_, j_, n_ in cfgs]
+            # the same problem at a loose tolerance: the exit tests decide where the solver stops, the certificate says how
+            # far that is from the optimum (calibrated against the tolerance)
+            cfgs += [(NEWTON, E("mjJAC_DENSE"), 1, ITER[NEWTON], TOL_LOOSE), (CG, E("mjJAC_DENSE"), 1, ITER[CG], TOL_LOOSE)]
             # truncated primal solves: 0 iterations returns the chosen starting point itself (warm-start choice), 2 iterations
             # exercise the accept rule far from convergence; only the monotonicity clause is judged on these
-            cfgs += [(NEWTON, E("mjJAC_DENSE"), 1, 0), (CG, E("mjJAC_SPARSE"), rng.choice((0, 1)), 2), (NEWTON, E("mjJAC_SPARSE"), 0, 1)]
-            for solver, jac, noisland, iters in cfgs:
-                op = "solve %d %d %d %d %d %r %d %d %r 0" % (solver, cone, jac, noisland, iters, TOL, nowarm, lsit, impratio)
+            cfgs += [(NEWTON, E("mjJAC_DENSE"), 1, 0, TOL), (CG, E("mjJAC_SPARSE"), rng.choice((0, 1)), 2, TOL), (NEWTON, E("mjJAC_SPARSE"), 0, 1, TOL)]
+            for solver, jac, noisland, iters, tol in cfgs:
+                op = "solve %d %d %d %d %d %r %d %d %r 0" % (solver, cone, jac, noisland, iters, tol, nowarm, lsit, impratio)
                 script.append(op)
-                meta.append(("solve", dict(info, op=op, solver=solver, noisland=noisland, jac=jac, cone=cone, nowarm=nowarm, truncated=iters < 10)))
+                meta.append(("solve", dict(info, op=op, solver=solver, noisland=noisland, jac=jac, cone=cone, nowarm=nowarm,
+                                           truncated=iters < 10, loose=tol != TOL)))
     return script, meta
 
 
@@ -288,13 +295,21 @@ def parse_cert(out):
 
 
 def converged(d):
-    """the solver left its loop through its own exit test on every recorded island"""
+    """the solver left its loop through one of its own exit tests on every recorded island (not by the iteration limit; for CG,
+    whose tests are all visible in the statistics, also not by a failed line search `alpha == 0`)"""
     if d["nefc"] == 0:
         return False
     n = 1 if (d["noisland"] or d["nisland"] <= 0) else d["nisland"]
-    if n > len(d["niter"]):
+    if n > len(d["niter"]) or n > len(d["last"]):
         return False
-    return all(d["niter"][i] < d["iterations"] for i in range(n))
+    for i in range(n):
+        if d["niter"][i] >= d["iterations"]:
+            return False
+        if d["solver"] == CG and d["niter"][i] > 0:
+            imp, grad = d["last"][i]
+            if not ((0 < imp < d["tolerance"]) or grad < d["tolerance"]):
+                return False
+    return True
 
 
 def gen_ls(rng, style):
@@ -350,7 +365,7 @@ def run(ctx):
             hist[w[2]] = hist.get(w[2], 0) + 1
     ctx.extra["linesearch_exit_histogram"] = hist
     # ---------------------------------------------------------------- S / T(a): engine scenes
-    nmodels = 200 if thorough else 16
+    nmodels = 200 if thorough else 24
     script, meta = gen_script(ctx, nmodels)
     rc, outs, err = ctx.run_lines([impl], script, timeout=3000)
     if rc != 0 or len(outs) != len(meta):
@@ -392,7 +407,7 @@ def run(ctx):
         groups.setdefault((info["model"], info["state"]), []).append(idx)
     for key, idxs in groups.items():
         d0 = solves[idxs[0]][1]
-        same = [i for i in idxs if solves[i][1]["nefc"] == d0["nefc"] and solves[i][1]["type"] == d0["type"] and not solves[i][0]["truncated"]]
+        same = [i for i in idxs if solves[i][1]["nefc"] == d0["nefc"] and solves[i][1]["type"] == d0["type"] and not solves[i][0]["truncated"] and not solves[i][0]["loose"]]
         if len(same) >= 2:
             lines.append(cert_line(d0, [solves[i][1]["qacc"] for i in same]))
             owners.append(("cross", same))
@@ -410,7 +425,7 @@ def run(ctx):
             info, d, rp = solves[ref]
             name = SOLNAME[d["solver"]] + ("" if d["noisland"] else "+islands")
             elliptic = any(t == E("mjCNSTR_CONTACT_ELLIPTIC") for t in d["type"])
-            sname = name + ("/elliptic" if elliptic else "")
+            sname = name + ("/elliptic" if elliptic else "") + ("@loose" if info["loose"] else "")
             if pc is None:
                 stats["cert_refused"] += 1
                 fail("c10:certificate-refused", "the certificate checker refused the engine's data (%s): %s" % (name, out[:100]), dict(rp, cert_line=line[:2000]))
@@ -442,7 +457,10 @@ def run(ctx):
             elif converged(d):
                 stats["converged"][sname] = stats["converged"].get(sname, 0) + 1
                 stats["max_bound_rel"][sname] = max(stats["max_bound_rel"].get(sname, 0.0), bound)
-                thr = BOUND_REL[SOLNAME[d["solver"]] + ("/elliptic" if elliptic else "")]
+                # the engine evaluates cost and gradient in doubles: what it can resolve is relative to the magnitude of the cost
+                noise = NOISE_REL * (abs(pf["gauss"]) + abs(pf["s"])) * scale
+                stats["noise_limited"] = stats.get("noise_limited", 0) + (1 if noise > BOUND_REL[SOLNAME[d["solver"]] + ("/elliptic" if elliptic else "") + ("@loose" if info["loose"] else "")] else 0)
+                thr = max(noise, BOUND_REL[SOLNAME[d["solver"]] + ("/elliptic" if elliptic else "") + ("@loose" if info["loose"] else "")])
                 if ok_numerics and bound > thr:
                     suspects[ref] = (bound, thr, name, elliptic)
             else:
